@@ -10,6 +10,8 @@ package data
 //@   assigns nothing
 
 //@ iface Data.Keys() (ks)
+//@   ensures a-list-of-its-own: arr(ks) == 0 || fresh(arr(ks))
+//@   ensures [C02] every-bound-key-is-listed: forall k Iface {dget(self, k)} :: dget(self, k) != nil ==> exists i int :: 0 <= i && i < len(ks) && ks[i] == k
 //@   assigns nothing
 
 //@ func New() (d)
@@ -23,6 +25,16 @@ package data
 //@   assigns nothing
 
 //@ func (d *emptyData) Keys() (ks)
+//@   unfold dmap(boxed(d)) == emptyMap()
+//@   assigns nothing
+
+//@ func (d *valueData) Keys() (ks)
+//@   requires d.Data != nil
+//@   unfold dmap(boxed(d)) == store(dmap(d.Data), d.k, d.v)
+//@   assigns nothing
+
+//@ func (d *indexedData) Value(k) (v)
+//@   unfold forall k Iface {dmap(boxed(d))[k]} :: dmap(boxed(d))[k] == ite(has(d.items, k), d.items[k], nil)
 //@   assigns nothing
 
 //@ func WithValue(d, k, v) (d1)
@@ -30,6 +42,11 @@ package data
 //@   unfold-post dmap(d1) == store(dmap(d), k, v)
 //@   ensures d1 != nil
 //@   ensures [C02] persistent-extension: dmap(d1) == store(dmap(d), k, v)
+//@   assigns nothing
+
+//@ func (d *indexedData) Keys() (ks)
+//@   refines-assumed every-bound-key-is-listed: holds by the representation invariant of indexedData (every key of items is in keys; Index is the only writer of either field - writes inventory, and proves it of the object it builds); object invariants are outside the contract language
+//@   unfold forall k Iface {dmap(boxed(d))[k]} :: dmap(boxed(d))[k] == ite(has(d.items, k), d.items[k], nil)
 //@   assigns nothing
 
 //@ func (d *valueData) Value(k) (v)
@@ -46,8 +63,11 @@ package data
 //@   ensures !ok ==> pointeeBoxed(vptr) == old(pointeeBoxed(vptr))
 
 //@ func Index(d) (d1)
-//@   trusted builds a map-backed copy of the same key/value pairs; summarised
 //@   requires d != nil
+//@   unfold-post typeof(d) != dyn("*github.com/uber-go/gopatch/internal/data.indexedData") ==> forall k Iface {dmap(d1)[k]} :: dmap(d1)[k] == ite(has(as("*github.com/uber-go/gopatch/internal/data.indexedData", unbox(d1, "Int")).items, k), as("*github.com/uber-go/gopatch/internal/data.indexedData", unbox(d1, "Int")).items[k], nil)
 //@   assigns nothing
 //@   ensures d1 != nil
-//@   ensures dmap(d1) == dmap(d)
+//@   ensures [C02,C03] an-indexed-copy-binds-exactly-what-the-original-binds: dmap(d1) == dmap(d)
+//@   loop 0
+//@     invariant forall j int {keys[j]} :: 0 <= j && j < #k ==> has(items, keys[j]) && items[keys[j]] == dget(d, keys[j])
+//@     invariant forall k Iface {has(items, k)} :: has(items, k) ==> items[k] == dget(d, k)
